@@ -715,9 +715,15 @@ func TestVerifC13Concurrent(t *testing.T) {
 		{{"ka", 'r', "setnx"}, {"kb", 'r', "cas"}},
 	}
 	agg := &c13cHistStats{pairs: map[string]struct{}{}, counts: map[string]int64{}, illegal: map[string]bool{}}
-	// nh histories; if the machine serialised the goroutines (little real overlap), up to
-	// 3*nh more, still a bounded case count, until the overlap floor is met
-	for h := 0; h < nh || (h < 4*nh && agg.overlapping < int64(nh)*50); h++ {
+	// nh histories; the scheduling-dependent coverage counters (real overlap, SetNX races
+	// won and lost) are topped up: if the machine serialised the goroutines, up to 7*nh
+	// more histories - still a bounded case count - until each counter is at twice its floor
+	won := func() int64 { return agg.counts["setnx_SetNX_ok_true"] + agg.counts["cas_SetNX_ok_true"] }
+	lost := func() int64 { return agg.counts["setnx_SetNX_ok_false"] + agg.counts["cas_SetNX_ok_false"] }
+	thin := func() bool {
+		return agg.overlapping < 2*int64(nh)*50 || won() < 2*int64(nh) || lost() < 2*int64(nh)
+	}
+	for h := 0; h < nh || (h < 8*nh && thin()); h++ {
 		keys := combos[h%len(combos)]
 		run.Case(fmt.Sprintf("conc|%s+%s", keys[0].Profile, keys[1].Profile), map[string]any{"history": h})
 		c13RunConcHistory(run, h, rand.New(rand.NewSource(r.Int63())), keys, agg)
@@ -745,7 +751,7 @@ func TestVerifC13ConcurrentHash(t *testing.T) {
 	r := run.Rand("conc-hash")
 	keys := []c13cKeySpec{{"ha", 'h', "hash"}, {"hb", 'h', "hash"}}
 	agg := &c13cHistStats{pairs: map[string]struct{}{}, counts: map[string]int64{}, illegal: map[string]bool{}}
-	for h := 0; h < nh || (h < 4*nh && agg.overlapping < int64(nh)*50); h++ {
+	for h := 0; h < nh || (h < 8*nh && agg.overlapping < 2*int64(nh)*50); h++ { // top-up as in 'concurrent'
 		run.Case("conc|hash+hash", map[string]any{"history": h})
 		c13RunConcHistory(run, h, rand.New(rand.NewSource(r.Int63())), keys, agg)
 		run.Eval(1)
@@ -840,6 +846,7 @@ func c13RunExpiryHistory(run *vk.Run, hidx int, r *rand.Rand, st *c13eStats) {
 	type span struct{ call, ret int64 }
 	cspans := make([][]span, ncl)
 	var sink int64
+	var cleaning int32
 	for c := 0; c < ncl; c++ {
 		done.Add(1)
 		go func(c int) {
@@ -847,6 +854,7 @@ func c13RunExpiryHistory(run *vk.Run, hidx int, r *rand.Rand, st *c13eStats) {
 			bar.arrive()
 			for k := 0; k < 2; k++ {
 				call := int64(time.Since(base))
+				atomic.StoreInt32(&cleaning, 1) // gate: writers start once a cleanup call is under way
 				s.CleanupExpired()
 				cspans[c] = append(cspans[c], span{call, int64(time.Since(base))})
 			}
@@ -857,6 +865,11 @@ func c13RunExpiryHistory(run *vk.Run, hidx int, r *rand.Rand, st *c13eStats) {
 		go func(g int) {
 			defer done.Done()
 			bar.arrive()
+			for i := 0; i < 50_000_000 && atomic.LoadInt32(&cleaning) == 0; i++ { // bounded wait for the gate
+				if i%256 == 255 {
+					runtime.Gosched()
+				}
+			}
 			for i := 0; i < delays[g]; i++ { // stagger the first write across the scan
 				atomic.AddInt64(&sink, 1)
 			}
@@ -945,7 +958,9 @@ func TestVerifC13ConcurrentExpiry(t *testing.T) {
 	nh := c13cBudget(run, 60, 1500)
 	r := run.Rand("conc-expiry")
 	st := &c13eStats{}
-	for h := 0; h < nh; h++ {
+	// nh histories, topped up (bounded: at most 8*nh) until the scheduling-dependent window
+	// counter "a write overlapped a CleanupExpired call" is at twice its floor
+	for h := 0; h < nh || (h < 8*nh && st.writesOverlapCleanup < 2*int64(nh)); h++ {
 		run.Case("conc|expired-keys+CleanupExpired", map[string]any{"history": h})
 		hr := rand.New(rand.NewSource(r.Int63()))
 		c13RunExpiryHistory(run, h, hr, st)
